@@ -209,13 +209,21 @@ pub fn zlib(data: &[u8], level: u32) -> Vec<u8> {
 }
 
 pub fn zlib_stored(data: &[u8]) -> Vec<u8> {
+    zlib_stored_blocks(data, 65535).0
+}
+
+/// Stored-block zlib stream with a chosen block size; also returns the offsets (in the stream)
+/// at which each block starts, so that a stream can be cut exactly between two blocks.
+pub fn zlib_stored_blocks(data: &[u8], block: usize) -> (Vec<u8>, Vec<usize>) {
+    let mut starts = Vec::new();
     let mut out = vec![0x78, 0x01];
-    let mut chunks: Vec<&[u8]> = data.chunks(65535).collect();
+    let mut chunks: Vec<&[u8]> = data.chunks(block.clamp(1, 65535)).collect();
     if chunks.is_empty() {
         chunks.push(&[]);
     }
     let n = chunks.len();
     for (i, c) in chunks.iter().enumerate() {
+        starts.push(out.len());
         out.push(if i + 1 == n { 1 } else { 0 });
         let len = c.len() as u16;
         out.extend_from_slice(&len.to_le_bytes());
@@ -228,7 +236,7 @@ pub fn zlib_stored(data: &[u8]) -> Vec<u8> {
         b = (b + a) % 65521;
     }
     out.extend_from_slice(&((b << 16) | a).to_be_bytes());
-    out
+    (out, starts)
 }
 
 /// A tiny well-formed sprite for interpreter (Miri) runs: canvas <= 6x6, <= 3 layers, <= 2
@@ -1199,6 +1207,8 @@ pub const BUGS: &[&str] = &[
     "many-palette-packets",
     "chunk-size-boundary",
     "tags-in-later-frame",
+    "zlib-split-a",
+    "zlib-split-b",
 ];
 
 fn ensure_tilemap(s: &mut SpriteSpec, r: &mut Rng) -> usize {
@@ -2241,6 +2251,23 @@ pub fn apply_bug(s: &mut SpriteSpec, bug: &str, r: &mut Rng, scale: usize) -> St
             format!("{} legacy palette packets with skip {}", n, skip)
         }
         "chunk-size-boundary" => "one chunk padded to a boundary payload size (applied on bytes)".into(),
+        "zlib-split-a" | "zlib-split-b" => {
+            // One compressed image delivered in two files: file A's stream stops between two
+            // deflate blocks, file B's "stream" is the remainder. Each alone is invalid; a decoder
+            // whose state survives a failed load may accept B after A.
+            let i = ensure_raw(s, r);
+            if let CelBody::Raw { w, h, pixels, .. } = &s.cels[i].body {
+                let (z, starts) = zlib_stored_blocks(pixels, 24);
+                let cut = if starts.len() >= 2 { starts[starts.len() / 2] } else { z.len() / 2 };
+                let part: Vec<u8> = if bug == "zlib-split-a" { z[..cut].to_vec() } else { z[cut..].to_vec() };
+                let mut body = Vec::new();
+                body.extend_from_slice(&w.to_le_bytes());
+                body.extend_from_slice(&h.to_le_bytes());
+                body.extend_from_slice(&part);
+                s.cels[i].body = CelBody::Opaque { cel_type: 2, body };
+            }
+            format!("{} half of a zlib stream cut between two deflate blocks", if bug == "zlib-split-a" { "first" } else { "second" })
+        }
         "tags-in-later-frame" => {
             if s.durations.len() < 2 {
                 s.durations.push(100);
